@@ -189,10 +189,10 @@ impl<T: ?Sized> RwLock<T> {
             }
         }
 
-        let g = RwLockReadGuard::new(self)?;
-        // finally we add rlock
+        // count the reader before the guard can escape inside a `Poisoned` error:
+        // dropping that guard runs `read_unlock` like any other
         *r += 1;
-        Ok(g)
+        Ok(RwLockReadGuard::new(self)?)
     }
 
     fn read_unlock(&self) {
